@@ -364,10 +364,11 @@ def make_store(gated=False, raise_plan=None, write_once=True):
         async def save(self, node_id, data):
             run = RUN.get()
             occ = 0
+            ent = None
             if run is not None:
                 occ = run.save_counts.get('n', 0) + 1
                 run.save_counts['n'] = occ
-                run.rec(kind='save', node=node_id, value=data, occ=occ)
+                ent = run.rec(kind='save', node=node_id, value=data, occ=occ, done=None)
                 if gated and run.loop is not None and hasattr(run.loop, 'add_external'):
                     from verifkit.vloop import Gate
 
@@ -377,6 +378,8 @@ def make_store(gated=False, raise_plan=None, write_once=True):
             if write_once and node_id in self._data:
                 raise ArtifactAlreadyExists(node_id)
             self._data[node_id] = data
+            if ent is not None:
+                ent['done'] = next_seq()  # the value is stored (stays None if the call was cancelled inside)
 
         async def load(self, node_id):
             if node_id not in self._data:
